@@ -101,6 +101,15 @@ Theorem C14_holds : forall c, valid c -> holds c (run_model c) = [].
 Proof. exact holds_model. Qed.
 Print Assumptions C14_holds.
 
+(* the hypotheses of C14_holds as a boolean computed for every evaluated case (5th item of the driver's answer) *)
+Theorem C14_validb_valid : forall c, validb c = true -> valid c.
+Proof. exact validb_valid. Qed.
+Print Assumptions C14_validb_valid.
+
+Theorem C14_covered_cases : forall c, validb c = true -> holds c (run_model c) = [].
+Proof. intros c H. apply holds_model, validb_valid, H. Qed.
+Print Assumptions C14_covered_cases.
+
 (* non-vacuity: a concrete oracle (lines "id=value", '#' comments ignored, identity hash), a history with a
    duplicate line, a rewrite, a deletion; the hypotheses hold and the answers are the expected ones *)
 Definition ex_oracle : oracle :=
